@@ -46,15 +46,43 @@ def intOrNone : PyVal → Prop
   | .none => True
   | _ => False
 
+/-- the kinds of raw value a primary-key field can have: integer, absent, or (ASCII) text -/
+def keyKind : PyVal → Prop
+  | .int _ => True
+  | .none => True
+  | .str _ => True
+  | _ => False
+
 /-- **Different id or different primary-key raws ⇒ different key**, for ids without '_' and integer
-(or absent) key values — the kinds the database uses for primary keys apart from four trailing
-station-id strings (`C17_db_key_kinds`). -/
+(or absent) key values -/
 theorem C17_key_injective (m m' : Msg) (h1 : noUnderscore m.id) (h2 : noUnderscore m'.id)
     (k1 : ∀ r ∈ keyRaws m, intOrNone r) (k2 : ∀ r ∈ keyRaws m', intOrNone r)
     (h : hashKey m = hashKey m') : m.id = m'.id ∧ keyRaws m = keyRaws m' := by
   rw [C17_key_eq, C17_key_eq] at h
   exact foldKey_injective intOrNone (fun r hr => by cases r <;> simp_all [intOrNone, IntOrNone])
     _ _ _ _ h1 h2 k1 k2 h
+
+/-- **… and with text keys too** (the four station-id keys of 130320–130324): for two messages of the
+SAME definition (same id, same number of key fields) whose key values are integers, absent or text —
+any text, also text containing '_' or spelling "None" — equal keys imply equal key values.
+(Text is written with its length, so the parts of the key can be read back one by one.)
+The text must be ASCII (`a1`, `a2`: every code < 128, which is what `PyVal.str` is documented to carry):
+`pyStr` renders codes with `Char.ofNat`, which sends every invalid code point to '\0', so without this
+the claim is false (`C17_text_needs_ascii` below). -/
+theorem C17_key_injective_text (m m' : Msg) (hid : m.id = m'.id) (hlen : (keyRaws m).length = (keyRaws m').length)
+    (k1 : ∀ r ∈ keyRaws m, keyKind r) (k2 : ∀ r ∈ keyRaws m', keyKind r)
+    (a1 : ∀ r ∈ keyRaws m, ∀ cs, r = .str cs → ∀ c ∈ cs, c < 128)
+    (a2 : ∀ r ∈ keyRaws m', ∀ cs, r = .str cs → ∀ c ∈ cs, c < 128)
+    (h : hashKey m = hashKey m') : keyRaws m = keyRaws m' := by
+  rw [C17_key_eq, C17_key_eq, hid] at h
+  have kk : ∀ r, keyKind r → KeyKind r := by
+    intro r hr
+    cases r <;> simp_all [keyKind, KeyKind]
+  exact foldKey_injective_text m'.id _ _ hlen (fun r hr => kk r (k1 r hr)) (fun r hr => kk r (k2 r hr)) a1 a2 h
+
+/-- why the ASCII hypothesis is needed: codes 0 and 0xD800 (not a valid code point) render alike -/
+theorem C17_text_needs_ascii : pyStr (.str [0]) = pyStr (.str [0xD800]) ∧ PyVal.str [0] ≠ PyVal.str [0xD800] := by
+  decide +kernel
 
 /-- database facts (kernel, regenerated): no definition id contains '_'; primary-key fields are
 LOOKUP, NUMBER with resolution 1, MMSI (integers), or one of the string/dynamic kinds listed -/
@@ -65,6 +93,9 @@ theorem C17_db_key_kinds : Gen.dbPgns.all (fun p => !p.id.toList.contains '_' &&
   decide +kernel
 
 -- non-vacuity: two battery-status messages differing only in a non-key field have the same key
+-- an absent station id and the station id "None" have different keys
+example : pyStr .none ≠ pyStr (.str ("None".toList.map Char.toNat)) := by decide +kernel
+
 example : hashKey ⟨127508, "batteryStatus", "", none, [⟨⟨"instance", "", none, none, none, "NUMBER", true⟩, .int 1, .int 1⟩, ⟨⟨"voltage", "", none, none, none, "NUMBER", false⟩, .int 5, .int 5⟩]⟩
         = "batteryStatus_1" := by decide +kernel
 
